@@ -1047,4 +1047,115 @@ theorem unit_stoich_isoRxnOf (lv : List (Name × Nat)) (r : BRxn) (lm : List Nat
   rw [h1, h2]
   exact unpack_net r.stoich x
 
+/-! ### initial state -/
+
+theorem setVar_zeros (L : List LName) (hL : L.Nodup) (k : LName) (hk : k ∈ L) (v : Rat) :
+    setVar (L.map fun i => (i, (0 : Rat))) k v = L.map fun n => (n, if n = k then v else 0) := by
+  induction L with
+  | nil => simp at hk
+  | cons a L ih =>
+    simp only [List.nodup_cons] at hL
+    simp only [List.map_cons, setVar]
+    by_cases h : a = k
+    · subst h
+      simp only [if_true, List.cons.injEq, true_and]
+      apply List.map_congr_left
+      intro n hn
+      have : n ≠ a := fun e => hL.1 (e ▸ hn)
+      simp [this]
+    · have hk' : k ∈ L := by
+        rcases List.mem_cons.mp hk with e | e
+        · exact absurd e.symm h
+        · exact e
+      rw [if_neg h, ih hL.2 hk']
+      simp [h]
+
+theorem sum_indicator_rat (L : List LName) (hL : L.Nodup) (k : LName) (hk : k ∈ L) (v : Rat) :
+    (L.map fun n => if n = k then v else 0).sum = v := by
+  induction L with
+  | nil => simp at hk
+  | cons a L ih =>
+    simp only [List.nodup_cons] at hL
+    simp only [List.map_cons, List.sum_cons]
+    by_cases h : a = k
+    · subst h
+      have : (L.map fun n => if n = a then v else (0 : Rat)) = L.map fun _ => (0 : Rat) := by
+        apply List.map_congr_left
+        intro n hn
+        have : n ≠ a := fun e => hL.1 (e ▸ hn)
+        simp [this]
+      rw [this, sum_map_zero]; simp [Rat.add_zero]
+    · have hk' : k ∈ L := by
+        rcases List.mem_cons.mp hk with e | e
+        · exact absurd e.symm h
+        · exact e
+      rw [if_neg h, ih hL.2 hk', Rat.zero_add]
+
+theorem initSuffix_length (n : Nat) (pos : List Nat) : (initSuffix n pos).length = n := by
+  simp [initSuffix]
+
+theorem patterns_head (n : Nat) : (patterns n).head? = some (List.replicate n false) := by
+  induction n with
+  | zero => rfl
+  | succ n ih =>
+    simp only [patterns]
+    cases hp : patterns n with
+    | nil => rw [hp] at ih; simp at ih
+    | cons w ws =>
+      rw [hp] at ih
+      simp only [List.head?_cons, Option.some.injEq] at ih
+      simp [ih, List.replicate_succ]
+
+theorem binaryLabels_labelsOf (lv : List (Name × Nat)) (k : Name) (h : lv.lookup k = none) :
+    binaryLabels k (labelsOf lv k) = [plain k] := by
+  simp [labelsOf, h, binaryLabels, plain]
+
+/-- the variables a base variable contributes: exactly its isotopomers, all zero except the
+    target isotopomer, which carries the base amount -/
+theorem initBlock_eq (lv : List (Name × Nat)) (initLabels : List (Name × List Nat)) (k : Name)
+    (v : Rat) :
+    ∃ target ∈ binaryLabels k (labelsOf lv k),
+      initBlock lv initLabels k v
+        = (binaryLabels k (labelsOf lv k)).map (fun n => (n, if n = target then v else 0)) ∧
+      (∀ n pos, lv.lookup k = some n → initLabels.lookup k = some pos →
+        target = assignLabel k (initSuffix n pos)) ∧
+      (∀ n, lv.lookup k = some n → initLabels.lookup k = none →
+        target = assignLabel k (List.replicate n false)) := by
+  unfold initBlock
+  cases hl : lv.lookup k with
+  | none =>
+    refine ⟨plain k, by simp [binaryLabels_labelsOf lv k hl], ?_, by simp, by simp⟩
+    simp [binaryLabels_labelsOf lv k hl]
+  | some n =>
+    have hn : labelsOf lv k = n := by simp [labelsOf, hl]
+    rw [hn]
+    cases hi : initLabels.lookup k with
+    | none =>
+      have hhead : (binaryLabels k n).headD (plain k) = assignLabel k (List.replicate n false) := by
+        unfold binaryLabels assignLabel
+        by_cases h0 : n > 0
+        · have := patterns_head n
+          cases hp : patterns n with
+          | nil => rw [hp] at this; simp at this
+          | cons w ws =>
+            rw [hp] at this
+            simp only [List.head?_cons, Option.some.injEq] at this
+            have hne : List.replicate n false ≠ [] := by
+              intro e; have := congrArg List.length e; simp at this; omega
+            simp [h0, this, hne]
+        · have : n = 0 := by omega
+          subst this; simp [plain]
+      have hmem : assignLabel k (List.replicate n false) ∈ binaryLabels k n := by
+        have := assignLabel_mem k (List.replicate n false)
+        simpa using this
+      refine ⟨_, hmem, ?_, by simp, by intro n' h; cases h; simp⟩
+      simp only [hhead]
+      exact setVar_zeros _ (binaryLabels_nodup k n) _ hmem v
+    | some pos =>
+      have hmem : assignLabel k (initSuffix n pos) ∈ binaryLabels k n := by
+        have := assignLabel_mem k (initSuffix n pos)
+        rwa [initSuffix_length] at this
+      refine ⟨_, hmem, ?_, by intro n' pos' h h'; cases h; cases h'; rfl, by simp⟩
+      exact setVar_zeros _ (binaryLabels_nodup k n) _ hmem v
+
 end Mxl.C05
